@@ -128,7 +128,7 @@ def run(ctx):
     else:
         ctx.oblige("correspondence:model=impl", True, f"{len(impl)} lines equal")
 
-    steps = [l for l in ops if l and not l.startswith(('{"op":"tx"', '{"op":"payload"', '{"op":"cipher"', '{"op":"universe"'))]
+    steps = [l for l in ops if l and not any(k in l[:200] for k in ('"op":"tx"', '"op":"payload"', '"op":"cipher"', '"op":"universe"'))]
     opk = Counter()
     for l in steps:
         j = json.loads(l)
